@@ -3,7 +3,7 @@
 long_to_bytes / bytes_to_long: see the end of the file (bytes_to_long is PROVED here against be(); long_to_bytes is not)."""
 from vf.pyvc.contracts import Contract, ClassContract
 from .base import base_registry
-from ._intcommon import add_entropy_model, add_lemmas, lemma_units, sys_untouched, TAPE_T, LEMMA_TEXT   # noqa
+from ._intcommon import add_entropy_model, add_lemmas, lemma_units, sys_untouched, ltb_contract, TAPE_T, LEMMA_TEXT   # noqa
 
 N = 'Crypto.Util.number.'
 RFT = TAPE_T + '|none'
@@ -70,22 +70,56 @@ def registry():
     reg.add(Contract(N + 'bytes_to_long', params={'s': 'bytes'}, raises={},
                      ensures={'value': 'result == be(s)', 'type': 'type(result) is int'},
                      loops={0: {'index': '_k',
-                                'invariant': ['_k == 0 or be_split(s, 4 * (_k - 1), 4 * _k)',
+                                # (the two length facts are loop-invariant trivia stated explicitly: the solver then gets
+                                # "4*_k + 4 <= len(s)" from linear arithmetic alone, which keeps the main step cheap under load)
+                                'invariant': ['length == len(s)', 'length % 4 == 0', '4 * _k <= length',
+                                              '_k == 0 or be_split(s, 4 * (_k - 1), 4 * _k)',
                                               'acc == be(s[:4 * _k])']}},
                      lemmas={'exit': {'zeros': 'len(s) % 4 == 0 or be_zeros(4 - len(s) % 4)',
                                       'pad': 'len(s) % 4 == 0 or be_cat(rep(b"\\x00", 4 - len(s) % 4), s)'}},
                      modifies=[], result='int'))
+    # ---- long_to_bytes: the clauses of ltb_contract (contracts/_intcommon.py), here NOT assumed.  The result list built with
+    # insert(0, chunk) is abstracted as a prepend accumulator (count, first, rest) [engine: loops.havoc_value 'pacc'];
+    # J = b"".join(result).  Invariant of all four loops: be(J) + n * 256**len(J) == n0.
+    J = 'b"".join(result)'
+    base_inv = ['n >= 0', 'be(%s) + n * pow2(8 * len(%s)) == old(ival(n))' % (J, J), '(len(result) == 0) == (len(%s) == 0)' % J]
+    sized = base_inv + ['0 <= bsr', 'bsr <= blocksize', 'len(%s) == blocksize - bsr' % J]
+    lp = {'havoc': ['result'], 'types': {'result': 'pacc'}, 'forget': True}      # classical loop rule: each loop starts from its invariant
+    ltb = ltb_contract(assumed=False)
+    ltb.params = {'n': 'int', 'blocksize': 'int'}
+    # lemma instances for the NEXT chunk, stated at the loop head (first invariants): 256**(len(J) + bits/8) == 2**bits * 256**len(J);
+    # the chunk's digits recombine to n mod 2**bits (proved lemma horner4/8); (n mod c)*P + (n div c)*(c*P) == n*P (proved lemma)
+    def step(bits):
+        c = 2 ** bits
+        out = ['pow2_add(%d, 8 * len(%s))' % (bits, J), 'lemma("integer.split_mul", n, %d, pow2(8 * len(%s)))' % (c, J)]
+        if bits > 8:
+            out.append('lemma("integer.horner%d", zmod(n, %d))' % (bits // 8, c))
+        return out
+    # when n0 fits blocksize bytes nothing is left once the blocksize bytes are out (proved lemma small_quot, instance first)
+    fits = ['lemma("integer.small_quot", be(%s), n, pow2(8 * len(%s)))' % (J, J),
+            '(blocksize > 0 and old(ival(n)) < pow2(8 * blocksize) and bsr == 0) ==> n == 0']
+    sized = sized + fits
+    # (the lemma instances come LAST: at the loop head all invariants are assumed together, while at the end of the body the main
+    # invariant is then proved before the instances for the next iteration join the hypotheses)
+    ltb.loops = {0: dict(lp, invariant=sized + step(64)), 1: dict(lp, invariant=sized + step(32)), 2: dict(lp, invariant=sized + step(8)),
+                 3: dict(lp, invariant=base_inv + ['len(%s) >= blocksize' % J,
+                                                   'not (blocksize > 0 and old(ival(n)) < pow2(8 * blocksize))',    # (that case ended before)
+                                                   'n == 0 ==> (len(result) >= 1 and be(result[0]) > 0)'] + step(64))}
+    ltb.lemmas = {'exit': {'lt': 'be_lt(result)', 'lower': 'be_lower(result)', 'inj': 'i2osp_be(result)'}}
+    ltb.options = {'pacc_be': True, 'int_bytes': True}
+    reg.add(ltb)
     return reg
 
 
-C14_TARGETS = ['ceil_div', 'size', 'inverse', 'bytes_to_long']
+C14_TARGETS = ['ceil_div', 'size', 'inverse', 'bytes_to_long', 'long_to_bytes']
 C18_TARGETS = ['getRandomInteger', 'getRandomRange', 'getRandomNBitInteger']
 
 
 def units(prop, tier):
     from vf.pyunit import pyvc_unit
     if prop == 'C14':
-        return [pyvc_unit(prop, 'number.' + t, registry, [N + t]) for t in C14_TARGETS]
+        # (bytes_to_long: generous per-query budget; unloaded it needs < 1 s per query)
+        return [pyvc_unit(prop, 'number.' + t, registry, [N + t], timeout_ms=(180000 if t == 'bytes_to_long' else None)) for t in C14_TARGETS]
     if prop == 'C18':
         return [pyvc_unit(prop, 'number.' + t, registry, [N + t]) for t in C18_TARGETS]
     return []
